@@ -741,11 +741,18 @@ def run_tracker(ordered, ttl, ops):
     for k_, ev in EV.items():
         tr.register_callback(ev, third_cb[k_])
 
+    seen = {'C': 0, 'U': 0, 'D': 0, 'any': 0}
+
     def take():
         total[0] += len(evs)
         for kind, _ in evs:
             if kind in subscribed and subscribed[kind]:
                 third_exp[kind] += 1
+        # calls received by the third observer's three callbacks and by the one-for-all callable during this
+        # operation (the model computes them from its subscription list)
+        delta = '~%d,%d,%d,%d' % (third['C'] - seen['C'], third['U'] - seen['U'], third['D'] - seen['D'],
+                                   calls[0] - seen['any'])
+        seen.update(C=third['C'], U=third['U'], D=third['D'], any=calls[0])
         if calls[0] != total[0]:
             evs.append(('OBSERVER-CALLED-%d-TIMES-FOR-%d-EVENTS-' % (calls[0], total[0]), 0))
         elif third != third_exp:
@@ -754,7 +761,7 @@ def run_tracker(ordered, ttl, ops):
         others = ['%s%d' % e for e in evs if e[0] != 'D']
         dels = ['D%d' % m for m in sorted(m for k, m in evs if k == 'D')]
         del evs[:]
-        return ','.join(others + dels)
+        return ','.join(others + dels) + ']' + delta
 
     def state():
         return '{' + ' '.join(show_track(t) for t in tr.tracks) + '}'
@@ -785,10 +792,10 @@ def run_tracker(ordered, ttl, ops):
             out.append('g%s %s' % ('N' if t is None else show_track(t), state()))
         elif p[0] == 'c':
             tr.cleanup()
-            out.append('c[%s] %s' % (take(), state()))
+            out.append('c[%s %s' % (take(), state()))
         elif p[0] == 'p':
             t = tr.pop_track(int(p[1]))
-            out.append('p[%s]%s %s' % (take(), 'N' if t is None else show_track(t), state()))
+            out.append('p[%s%s %s' % (take(), 'N' if t is None else show_track(t), state()))
         elif p[0] == 'n':
             out.append('n[%s] %s' % (' '.join(str(t.mmsi) for t in tr.n_latest_tracks(int(p[1]))), state()))
         elif p[0] == 'u':
@@ -799,9 +806,9 @@ def run_tracker(ordered, ttl, ops):
                 continue
             try:
                 tr.update(s, None if p[2] == 'N' else float(p[2]))
-                out.append('u+[%s] %s' % (take(), state()))
+                out.append('u+[%s %s' % (take(), state()))
             except ValueError:
-                out.append('u-[%s] %s' % (take(), state()))
+                out.append('u-[%s %s' % (take(), state()))
             except Exception as e:  # noqa
                 out.append('u%s %s' % (err(e), state()))
         else:
